@@ -63,6 +63,13 @@ def listener_cases(ctx, alphabet, programs=None):
                         cases.append((name, prog, s, {(notif, occ): op}))
         # TWO requests from notifications (the second typically issued while the first is being enacted): every pair, with
         # no ordinary request (quick) or with every placement of one (thorough)
+        # requests issued from the exiting / entering phase of the k-th transition (an overridden on_exit_* / on_entering hook)
+        for notif in ('exi', 'ent'):
+            for occ in (1, 2, 3, 4):
+                for op in ('kill', 'pause', 'play'):
+                    for s in scheds:
+                        if len(s) <= (1 if ctx.thorough else 0) or occ <= 2:
+                            cases.append((name, prog, s, {(notif, occ): op}))
         singles = [(notif, occ, op) for notif in ('run', 'wai', 'pau', 'pla') for occ in (1, 2) for op in ('kill', 'pause', 'play')
                    if not (notif == 'pau' and op == 'pause')]
         pair_scheds = (list(pm.schedules(npos, ops, 1)) if ctx.thorough
